@@ -120,6 +120,16 @@ pub fn guarded<T>(f: impl FnOnce() -> T) -> Result<T, String> {
   }
 }
 
+/// run clean-up code whose panics are nobody's verdict (everything observable was recorded before): panics are caught and
+/// the swallowed-panic counter is put back
+pub fn ignoring_panics(f: impl FnOnce()) {
+  let before = PANICS.with(|c| c.get());
+  let last = LAST_PANIC.with(|p| p.borrow_mut().take());
+  let _ = std::panic::catch_unwind(std::panic::AssertUnwindSafe(f));
+  PANICS.with(|c| c.set(before));
+  LAST_PANIC.with(|p| *p.borrow_mut() = last);
+}
+
 /// like `guarded`, but a panic that the library swallowed (scheduled tasks run
 /// under catch_unwind) also counts
 pub fn guarded_strict<T>(f: impl FnOnce() -> T) -> Result<T, String> {
@@ -393,6 +403,122 @@ fn random_part(prop: &Prop, pi: usize, cases: u64, seed: u64, tier: Tier, known:
     }
   }
   (total, fail)
+}
+
+/// Large random parts run in child processes of at most CHUNK cases each (same binary, `--chunk`): whatever the code
+/// under test leaks - rxRust keeps a reference cycle alive when a flattening operator is dropped with inner observables
+/// still queued, about 2 KB per C05 case, 40 GB over a thorough run - is given back when the chunk ends. Chunk k uses
+/// the seed `seed * 1000003 + k + 1`, so a run is still a function of the code and VERIF_SEED.
+const CHUNK: u64 = 3_000_000;
+fn random_part_chunked(prop: &Prop, pi: usize, cases: u64, seed: u64, tier: Tier, known: &[String], workers: usize) -> (Stats, Option<Failure>) {
+  if cases <= CHUNK || std::env::var("RXV_NO_CHUNK").is_ok() {
+    return random_part(prop, pi, cases, seed, tier, known, workers);
+  }
+  let exe = match std::env::current_exe() {
+    Ok(e) => e,
+    Err(_) => return random_part(prop, pi, cases, seed, tier, known, workers),
+  };
+  let n = (cases + CHUNK - 1) / CHUNK;
+  let mut total = Stats::default();
+  for k in 0..n {
+    let this = if k + 1 == n { cases - CHUNK * (n - 1) } else { CHUNK };
+    let file = std::env::temp_dir().join(format!("rxv-chunk-{}-{}-{}-{}.json", std::process::id(), prop.id, pi, k));
+    let child = std::process::Command::new(&exe)
+      .args([prop.id, "--chunk", &pi.to_string(), &(seed.wrapping_mul(1_000_003).wrapping_add(k + 1)).to_string(), &this.to_string(), &file.to_string_lossy()])
+      .env("RXV_CHUNK_KNOWN", known.join("\u{1f}"))
+      .env("RXV_CHUNK_TIER", if tier == Tier::Thorough { "thorough" } else { "quick" })
+      .stdout(std::process::Stdio::inherit())
+      .spawn();
+    let Ok(mut child) = child else {
+      println!("INCONCLUSIVE property={} cannot start a chunk process", prop.id);
+      std::process::exit(2);
+    };
+    let status = loop {
+      match child.try_wait() {
+        Ok(Some(st)) => break st,
+        Ok(None) => {
+          beat(); // the child has its own watchdog
+          std::thread::sleep(std::time::Duration::from_millis(200));
+        }
+        Err(_) => {
+          println!("INCONCLUSIVE property={} lost a chunk process", prop.id);
+          std::process::exit(2);
+        }
+      }
+    };
+    let parsed = std::fs::read_to_string(&file).ok().and_then(|t| serde_json::from_str::<J>(&t).ok());
+    let _ = std::fs::remove_file(&file);
+    let Some(j) = parsed else {
+      println!("INCONCLUSIVE property={} chunk {k} of part {} ended without a result (status {status})", prop.id, prop.parts[pi].name);
+      std::process::exit(2);
+    };
+    let (st, fail) = stats_from_json(&j);
+    total.merge(st);
+    if fail.is_some() {
+      return (total, fail);
+    }
+  }
+  (total, None)
+}
+
+fn stats_to_json(st: &Stats, fail: &Option<Failure>) -> J {
+  json!({
+    "evaluations": st.evaluations, "discards": st.discards, "excluded_known": st.excluded_known,
+    "nontrivial": st.nontrivial.iter().collect::<Vec<_>>(),
+    "labels": st.labels.iter().map(|(k, v)| (k.to_string(), *v)).collect::<BTreeMap<String, u64>>(),
+    "notes": st.notes, "samples": st.samples,
+    "failure": fail.as_ref().map(|f| json!({"part": f.part, "picks": f.picks, "sig": f.sig, "detail": f.detail, "desc": f.desc})),
+  })
+}
+fn stats_from_json(j: &J) -> (Stats, Option<Failure>) {
+  let mut st = Stats::default();
+  st.evaluations = j["evaluations"].as_u64().unwrap_or(0);
+  st.discards = j["discards"].as_u64().unwrap_or(0);
+  st.excluded_known = j["excluded_known"].as_u64().unwrap_or(0);
+  if let Some(a) = j["nontrivial"].as_array() {
+    st.nontrivial = a.iter().filter_map(|x| x.as_u64()).collect();
+  }
+  if let Some(m) = j["labels"].as_object() {
+    for (k, v) in m {
+      // label names are a small fixed set: leaking one copy of each per process is harmless
+      let k: &'static str = Box::leak(k.clone().into_boxed_str());
+      st.labels.insert(k, v.as_u64().unwrap_or(0));
+    }
+  }
+  if let Some(m) = j["notes"].as_object() {
+    for (k, v) in m {
+      st.notes.insert(k.clone(), v.as_u64().unwrap_or(0));
+    }
+  }
+  if let Some(a) = j["samples"].as_array() {
+    st.samples = a.clone();
+  }
+  let f = &j["failure"];
+  let fail = if f.is_null() {
+    None
+  } else {
+    Some(Failure {
+      part: f["part"].as_u64().unwrap_or(0) as usize,
+      picks: f["picks"].as_array().map(|a| a.iter().map(|x| x.as_u64().unwrap_or(0) as u32).collect()).unwrap_or_default(),
+      sig: f["sig"].as_str().unwrap_or("").to_string(),
+      detail: f["detail"].as_str().unwrap_or("").to_string(),
+      desc: f["desc"].clone(),
+    })
+  };
+  (st, fail)
+}
+
+/// child side of `random_part_chunked`
+pub fn chunk_main(prop: &Prop, pi: usize, seed: u64, cases: u64, file: &str) -> i32 {
+  start_watchdog(prop.id);
+  let workers: usize = std::env::var("RXV_WORKERS").ok().and_then(|s| s.parse().ok()).unwrap_or(14);
+  let known: Vec<String> = std::env::var("RXV_CHUNK_KNOWN").ok().map(|s| s.split('\u{1f}').filter(|x| !x.is_empty()).map(|x| x.to_string()).collect()).unwrap_or_default();
+  let tier = if std::env::var("RXV_CHUNK_TIER").as_deref() == Ok("quick") { Tier::Quick } else { Tier::Thorough };
+  let (st, fail) = random_part(prop, pi.min(prop.parts.len() - 1), cases, seed, tier, &known, workers);
+  match std::fs::write(file, serde_json::to_string(&stats_to_json(&st, &fail)).unwrap()) {
+    Ok(()) => 0,
+    Err(_) => 2,
+  }
 }
 
 /// depth-first enumeration of the whole choice tree below `depth` picks
@@ -683,7 +809,7 @@ pub fn check(prop: &Prop, tier: Tier, seed: u64) -> i32 {
     let tp = Instant::now();
     let mut pj = json!({"name": part.name});
     if cases > 0 {
-      let (st, fail) = random_part(prop, pi, cases, seed, tier, &active, workers);
+      let (st, fail) = random_part_chunked(prop, pi, cases, seed, tier, &active, workers);
       pj["random_cases"] = json!(st.evaluations);
       pj["random_distinct_nontrivial"] = json!(st.nontrivial.len());
       total.merge(st);
@@ -751,6 +877,37 @@ pub fn check(prop: &Prop, tier: Tier, seed: u64) -> i32 {
 }
 
 /// replay one file; exit 1 + VIOLATION line when it (still) fails
+/// debugging aid: pseudo-random tapes (xorshift of the seed) until a case carries `label`; the case is written to
+/// <out>/replays/<id>-found.json as resolved picks
+pub fn find_label(prop: &Prop, label: &str, part: usize, seed: u64) -> i32 {
+  let part = part.min(prop.parts.len() - 1);
+  let ctx = Ctx { tier: Tier::Quick, want_desc: true, active_known: vec![], part };
+  let mut x: u64 = seed.wrapping_mul(0x9e3779b97f4a7c15) | 1;
+  for _ in 0..2_000_000 {
+    let words: Vec<u32> = (0..prop.parts[part].tape_len)
+      .map(|_| {
+        x ^= x << 13;
+        x ^= x >> 7;
+        x ^= x << 17;
+        (x >> 16) as u32
+      })
+      .collect();
+    let mut c = Tape::new(&words);
+    let o = run_one(prop.parts[part].run, &mut c, &ctx);
+    if o.labels.iter().any(|l| *l == label) {
+      let dir = out_dir().join("replays");
+      let _ = std::fs::create_dir_all(&dir);
+      let p = dir.join(format!("{}-found.json", prop.id));
+      let j = serde_json::json!({"property": prop.id, "part": part, "picks": c.record(), "case": o.desc});
+      let _ = std::fs::write(&p, serde_json::to_string_pretty(&j).unwrap());
+      println!("found: {}", p.display());
+      return 0;
+    }
+  }
+  println!("no case with label {label} in 2000000 tapes");
+  2
+}
+
 pub fn replay_file(prop: &Prop, path: &str) -> i32 {
   let Ok(txt) = std::fs::read_to_string(path) else {
     println!("INCONCLUSIVE cannot read {path}");
